@@ -39,56 +39,71 @@ BATCH = 12
 # ---------------------------------------------------------------------------------------------
 # reference predictions
 # ---------------------------------------------------------------------------------------------
-def locals_of(case: Dict[str, Any], cat: str, lnames: List[str], lib: str) -> List[Dict[str, str]]:
-    out: List[Dict[str, str]] = []
+def abstract_locals(case: Dict[str, Any], referable: bool, is_var: bool) -> List[Dict[int, Any]]:
+    """Per layer {name index: owner} for one class of categories; owner = index of the defining layer or "LIB"."""
+    out: List[Dict[int, Any]] = []
     for i, t in enumerate(case["types"]):
-        d: Dict[str, str] = {}
-        if not (cat == "var" and t in eh.NO_VARS):
+        d: Dict[int, Any] = {}
+        if not (is_var and t in eh.NO_VARS):
             for ni, kind in enumerate(case["place"][i]):
-                nm = case["names"][ni]
                 if kind == 1:
-                    d[eh.short_name(cat, nm)] = eh.marker(lnames[i], cat, nm)
-                elif kind == 2 and cat in eh.REFERABLE_CATS:
-                    d[eh.short_name(cat, nm)] = eh.marker(lib, cat, nm)
+                    d[ni] = i
+                elif kind == 2 and referable:
+                    d[ni] = "LIB"
         out.append(d)
     return out
 
 
-def excluded_of(case: Dict[str, Any], cat: str) -> Dict[Tuple[int, int], set]:
-    gov = eh.CATEGORIES[cat][1]
+def abstract_excluded(case: Dict[str, Any]) -> Dict[Tuple[int, int], set]:
     out: Dict[Tuple[int, int], set] = {}
-    if gov is None or gov not in case.get("excl_lists", eh.EXCL_LISTS):
-        return out
     for c, p, n in case.get("excl", []):
-        out.setdefault((c, p), set()).add(eh.short_name(cat, case["names"][n]))
+        out.setdefault((c, p), set()).add(n)
     return out
 
 
 def predict(case: Dict[str, Any], prefix: str = "") -> List[Dict[str, Any]]:
-    """One prediction per distinct reading: {"reading", "conflicts": [(layer, cat, name)], "views": [ {cat: [(sn, marker)]} ]}"""
+    """One prediction per distinct reading: {"reading", "conflicts": [(layer, cat, short name)],
+    "views": [per layer {cat: [(short name, marker)]}]}.  Categories that are governed alike (same exclusions,
+    same placement kinds) resolve alike, so the model is evaluated once per such class and reading."""
     lnames = eh.layer_names(case, prefix)
     lib = prefix + eh.LIB
     cats = case.get("cats", eh.ALL_CATS)
-    types, parents = case["types"], case["parents"]
+    types, parents, nms = case["types"], case["parents"], case["names"]
+    lists = case.get("excl_lists", eh.EXCL_LISTS)
     prot = [i for i, t in enumerate(types) if t in eh.NO_VARS]
+    excl = abstract_excluded(case)
     preds: List[Dict[str, Any]] = []
     seen = set()
     for esd, pv in READINGS:
+        memo: Dict[Tuple[bool, bool, bool], Any] = {}
         views: List[Dict[str, List[Tuple[str, str]]]] = [dict() for _ in types]
         conflicts: List[Tuple[int, str, str]] = []
         for cat in cats:
-            v, cf = ri.resolve(types, parents, locals_of(case, cat, lnames, lib), excluded_of(case, cat), esd=esd,
-                               opaque=prot if (cat == "var" and pv == "opaque") else ())
+            applies = eh.CATEGORIES[cat][1] in lists and bool(excl)
+            cls = (applies, cat in eh.REFERABLE_CATS, cat == "var")
+            if cls not in memo:
+                memo[cls] = ri.resolve(types, parents, abstract_locals(case, cls[1], cls[2]), excl if applies else None, esd=esd,
+                                       opaque=prot if (cls[2] and pv == "opaque") else ())
+            v, cf = memo[cls]
             for i in range(len(types)):
-                views[i][cat] = sorted((sn, m) for sn, m in v[i].items() if not isinstance(m, ri.Conflict))
-            conflicts.extend((i, cat, sn) for i, sn in cf)
-        key = jdump([views, conflicts])
+                views[i][cat] = sorted((eh.short_name(cat, nms[ni]), eh.marker(lib if o == "LIB" else lnames[o], cat, nms[ni]))
+                                       for ni, o in v[i].items() if not isinstance(o, ri.Conflict))
+            conflicts.extend((i, cat, eh.short_name(cat, nms[ni])) for i, ni in cf)
+        key = repr((views, conflicts))
         if key in seen:
             continue
         seen.add(key)
         preds.append({"reading": f"shared-data {esd}, variables through protocols {pv}", "views": views,
                       "conflicts": conflicts})
     return preds
+
+
+def plain_clash(case: Dict[str, Any]) -> bool:
+    """Would the categories WITHOUT a NOT-INHERITED list (functional classes, ...) clash in this placement?"""
+    for esd in ("highest", "lowest"):
+        if ri.resolve(case["types"], case["parents"], abstract_locals(case, False, False), None, esd=esd)[1]:
+            return True
+    return False
 
 
 # ---------------------------------------------------------------------------------------------
@@ -130,15 +145,28 @@ class Loader:
         return db
 
 
-def pairs(items: Any) -> Optional[List[Tuple[str, str]]]:
+def unprefix(s: Any, prefix: str) -> str:
+    s = str(s)
+    return s[len(prefix):] if prefix and s.startswith(prefix) else s
+
+
+def pairs(items: Any, prefix: str = "") -> Optional[List[Tuple[str, str]]]:
     if items is None:
         return None
-    return sorted((x.short_name, x.long_name) for x in items)
+    return sorted((x.short_name, unprefix(x.long_name, prefix)) for x in items)
 
 
-def observe(layer: Any, cats: List[str]) -> Dict[str, Optional[List[Tuple[str, str]]]]:
-    """What the public getters of one layer show, per category (None: the layer type has no such getter)."""
+_pairs = pairs
+
+
+def observe(layer: Any, cats: List[str], prefix: str = "") -> Dict[str, Optional[List[Tuple[str, str]]]]:
+    """What the public getters of one layer show, per category (None: the layer type has no such getter).
+    `prefix`: batch slot prefix of the layer names, removed from the markers."""
     ddds = layer.diag_data_dictionary_spec
+
+    def pairs(items: Any) -> Optional[List[Tuple[str, str]]]:
+        return _pairs(items, prefix)
+
     out: Dict[str, Optional[List[Tuple[str, str]]]] = {}
     for cat in cats:
         if cat == "svc":
@@ -188,6 +216,10 @@ def decode_probe(layer: Any, data: bytes) -> Tuple[str, List[str]]:
     except Exception as e:  # noqa
         return type(e).__name__, [str(e)[:200]]
     return "ok", sorted({str(m.service.long_name) for m in msgs})
+
+
+def unprefixed(found: List[str], prefix: str) -> List[str]:
+    return sorted(unprefix(f, prefix) for f in found)
 
 
 def service_objects(case: Dict[str, Any], lnames: List[str], lib: str) -> List[Tuple[str, bytes]]:
@@ -250,11 +282,12 @@ def classify_diffs(case: Dict[str, Any], pred: Dict[str, Any], obs: List[Dict[st
 
 
 def judge_loaded(case: Dict[str, Any], preds: List[Dict[str, Any]], db: Any, prefix: str, part: Optional[Part]) -> List[Tuple[str, str]]:
-    """The database loaded: compare every layer with the predictions, then probe decode()."""
-    lnames = eh.layer_names(case, prefix)
+    """The database loaded: compare every layer with the predictions (made for unprefixed layer names), then
+    probe decode()."""
+    lnames = eh.layer_names(case)
     cats = case.get("cats", eh.ALL_CATS)
-    layers = [db.diag_layers[n] for n in lnames]
-    obs = [observe(l, cats) for l in layers]
+    layers = [db.diag_layers[prefix + n] for n in lnames]
+    obs = [observe(l, cats, prefix) for l in layers]
     out: List[Tuple[str, str]] = []
     for l in layers:
         out.extend(getter_consistency(l, cats))
@@ -281,11 +314,11 @@ def judge_loaded(case: Dict[str, Any], preds: List[Dict[str, Any]], db: Any, pre
     if best_diffs or "svc" not in cats:
         return out
     # behaviour: decode() of every service object's request in every layer
-    lib = prefix + eh.LIB
     for i, l in enumerate(layers):
         visible = {m for _, m in best["views"][i]["svc"]}
-        for m, data in service_objects(case, lnames, lib):
+        for m, data in service_objects(case, lnames, eh.LIB):
             outcome, found = decode_probe(l, data)
+            found = unprefixed(found, prefix) if outcome == "ok" else found
             if part is not None:
                 part.count("decode_calls")
             if outcome not in ("ok", "DecodeError"):
@@ -383,6 +416,7 @@ def configurations(types: Sequence[str], parents: Sequence[Sequence[int]], k: in
         if any(not any(c) for c in cols):
             continue
         has_ref = any(2 in c for c in cols)
+        clash = None if has_ref else plain_clash(dict(base, place=place))
         for excl in exclusion_sets(parents, place, k):
             if k == 2:
                 ka = (cols[0], sorted((c, p) for c, p, nm in excl if nm == 0))
@@ -400,8 +434,7 @@ def configurations(types: Sequence[str], parents: Sequence[Sequence[int]], k: in
                 continue
             # objects of the categories without a NOT-INHERITED list ignore `excl`; if they clash, the load
             # fails for their sake and would hide what the exclusions do -> leave them out in that case
-            plain = predict(dict(case, excl=[]))
-            if any(p["conflicts"] for p in plain):
+            if clash:
                 case["cats"] = list(eh.EXCLUDABLE_CATS)
                 yield case
                 continue
@@ -463,7 +496,7 @@ def explore_unit(unit: Tuple[Any, ...]) -> Part:
             part.count("databases_loaded")
             for slot, (c, p) in enumerate(batch):
                 prefix = f"k{slot}_" if len(cases) > 1 else ""
-                probs = judge_loaded(c, predict(c, prefix), db, prefix, part)
+                probs = judge_loaded(c, p, db, prefix, part)
                 if probs:
                     # believe a batched finding only if the hierarchy alone shows it too
                     probs1, outcome1 = run_single(loader, c, None)
@@ -671,7 +704,7 @@ def replay(case: Any) -> List[Tuple[str, str]]:
             slot = case["slot"]
             db = loader.load(cases)
             prefix = f"k{slot}_" if len(cases) > 1 else ""
-            probs = judge_loaded(cases[slot], predict(cases[slot], prefix), db, prefix, None)
+            probs = judge_loaded(cases[slot], predict(cases[slot]), db, prefix, None)
             alone, _ = run_single(loader, cases[slot], None)
             keys1 = {k for k, _ in alone}
             return [("C09/batch/finding-only-in-shared-database", f"{k}: {d}") for k, d in probs if k not in keys1]
